@@ -418,7 +418,7 @@ fn bases() -> Vec<(MsgKind, Vec<Field>)> {
     ]
 }
 
-const NMUT: usize = 48;
+const NMUT: usize = 52;
 
 /// apply mutation `m` at position `pos`; returns label: 1 = invalidating, 2 = preserving, 0 = unspecified/other, None = not applicable
 fn mutate(kind: MsgKind, fields: &mut Vec<Field>, m: usize, pos: usize) -> Option<u8> {
@@ -664,6 +664,24 @@ fn mutate(kind: MsgKind, fields: &mut Vec<Field>, m: usize, pos: usize) -> Optio
             remove(fields, b"host");
             fields.push((b"x-host".to_vec(), b"example.com".to_vec()));
             had.then_some(1)
+        }
+        // ---- invalidating: pseudo-header values that are one character away from a valid one (what a lenient parser -
+        // an integer parser for :status, a trimming one for the others - lets through)
+        48 if kind == MsgKind::Response => {
+            const NEAR: [&[u8]; 12] = [b"0200", b"+200", b"00404", b"+0404", b"200 ", b" 200", b"2 00", b"-200", b"20\t0", b"200\0", b"2e2", b"0x64"];
+            set(fields, b":status", NEAR[pos % NEAR.len()]).then_some(1)
+        }
+        49 if kind == MsgKind::Request => {
+            const NEAR: [&[u8]; 6] = [b"GET ", b" GET", b"GET\t", b"G\0ET", b"GET,POST", b"GET/1"];
+            set(fields, b":method", NEAR[pos % NEAR.len()]).then_some(1)
+        }
+        50 if kind == MsgKind::Request => {
+            const NEAR: [&[u8]; 5] = [b"https:", b"https ", b" https", b"ht/tp", b"https://"];
+            set(fields, b":scheme", NEAR[pos % NEAR.len()]).then_some(1)
+        }
+        51 if kind == MsgKind::Request => {
+            const NEAR: [&[u8]; 4] = [b"/a\tb", b"/ ", b" /", b"/a\0"];
+            set(fields, b":path", NEAR[pos % NEAR.len()]).then_some(1)
         }
         _ => None,
     }
